@@ -393,6 +393,10 @@ def cmd_check(args):
             # one VIOLATION line per clause id is enough
             er["violations"] = er["violations"][:1]
             extra_results.append(er)
+        EXTRA_EVIDENCE.clear()
+        if tier == "thorough" and all(r["status"] == "ok" for r in results):
+            EXTRA_EVIDENCE["proof_stability"] = proof_stability(results, rl, seed)
+            EXTRA_EVIDENCE["negative_controls"] = negative_controls(pid)
         hooks = list(pc.get("kani", [])) + (list(pc.get("thorough_kani", [])) if tier == "thorough" else [])
         for hook in hooks:
             import kani_driver
@@ -401,6 +405,49 @@ def cmd_check(args):
     finally:
         shutil.rmtree(scratch, ignore_errors=True)
     return rc
+
+
+EXTRA_EVIDENCE = {}
+
+
+def proof_stability(results, rl, seed):
+    """thorough tier: every group that verified is verified again under two other SMT random seeds; a proof that
+    only goes through for one seed is brittle (reported, never an alarm)."""
+    out = []
+    def one(args):
+        r, sd = args
+        g = r["g"]
+        res2 = run_verus(g.gen_path, rlimit=rl, extra=["--smt-option", "smt.random_seed=%d" % sd])
+        fails2, tool2 = classify(g, res2)
+        return {"group": g.name, "smt_random_seed": sd, "stable": not fails2 and not tool2,
+                "failed": [f["msg"] for f in fails2][:3] + [t["msg"] for t in tool2][:2], "wall_s": round(res2.get("wall", 0), 1)}
+    jobs = [(r, seed + k) for r in results for k in (1, 2)]
+    with ThreadPoolExecutor(max_workers=8) as ex:
+        out = list(ex.map(one, jobs))
+    return out
+
+
+def negative_controls(pid):
+    """thorough tier: every stored seeded change of this property (seeded/<pid>-m*/patch.diff; each breaks the property
+    while the repo's own suite stays green) is applied to a scratch copy and the quick check must report a violation."""
+    sdir = os.path.join(VERIF, "seeded")
+    seeds = sorted(d for d in os.listdir(sdir) if d.startswith(pid + "-m") and os.path.exists(os.path.join(sdir, d, "patch.diff"))) if os.path.isdir(sdir) else []
+    def one(sd):
+        d = tempfile.mkdtemp(prefix="vxneg.")
+        try:
+            shutil.copytree(os.path.join(REPO, "src"), os.path.join(d, "repo", "src"))
+            p = subprocess.run(["patch", "-p1", "-s", "-i", os.path.join(sdir, sd, "patch.diff")], cwd=os.path.join(d, "repo"),
+                               stdout=subprocess.PIPE, stderr=subprocess.STDOUT)
+            if p.returncode != 0:
+                return {"seed": sd, "applied": False}
+            env = dict(os.environ, VX_REPO=os.path.join(d, "repo"), VX_EVIDENCE_DIR=os.path.join(d, "ev"), VX_REPLAY_DIR=os.path.join(d, "rp"), VERIF_TIER="quick")
+            r = subprocess.run([sys.executable, os.path.abspath(__file__), "check", pid, "--tier", "quick"], env=env, stdout=subprocess.PIPE, stderr=subprocess.STDOUT, text=True)
+            return {"seed": sd, "applied": True, "detected": r.returncode == 1, "rc": r.returncode,
+                    "obligations": sorted(set(re.findall(r"obligation=(\S+)", r.stdout)))[:4]}
+        finally:
+            shutil.rmtree(d, ignore_errors=True)
+    with ThreadPoolExecutor(max_workers=3) as ex:
+        return list(ex.map(one, seeds))
 
 
 def clause_props(c):
@@ -571,6 +618,8 @@ def report(pid, pc, tier, seed, results, extra_results, wall):
             "not_covered": pc.get("not_covered", []),
             "spec_sha256": spec_hashes,
             "kani": kani_ev,
+            "proof_stability": EXTRA_EVIDENCE.get("proof_stability", []),
+            "negative_controls": EXTRA_EVIDENCE.get("negative_controls", []),
             "status": status,
             "undecided": [{"group": u.get("group"), "reason": u.get("reason")} for u in undecided],
             "samples": [{"clause": cid, "fn": c["fn"], "kind": c["kind"], "text": c["text"][:400]}
